@@ -37,12 +37,23 @@ type ExploreStats struct {
 // all shards share the same canonical-state rule, so the union is exact; states
 // may be visited by more than one shard and are counted per shard).
 func Explore(c *Ctx, sys System, maxDepth int, maxStates int) ExploreStats {
+	return ExploreFrom(c, sys, nil, maxDepth, maxStates)
+}
+
+// ExploreFrom is Explore started in the state reached by the history root
+// instead of the initial state (search from non-initial states: a bounded depth
+// then reaches histories that are longer than the bound).  Recorded histories
+// include the root, so they replay from the initial state.
+func ExploreFrom(c *Ctx, sys System, root []string, maxDepth int, maxStates int) ExploreStats {
 	var st ExploreStats
 	type node struct{ hist []string }
 	sys.Reset()
+	for _, op := range root {
+		sys.Apply(op)
+	}
 	seen := map[string]bool{sys.Canon(): true}
 	sys.Close()
-	frontier := []node{{nil}}
+	frontier := []node{{append([]string{}, root...)}}
 	st.States = 1
 	for depth := 0; depth < maxDepth && len(frontier) > 0; depth++ {
 		var next []node
